@@ -265,7 +265,9 @@ def judge_arrays(c, rec):
             rec.violation("reporting/t_stat", c, "t_stat=%r, textbook %r" % (rd["t_stat"], t))
         cv = R["rmse_autocorr_adj"] / R["mean"]
         npr = R["n_prime"]
-        if math.isfinite(t) and npr > 0 and mm > 0:
+        # with residuals correlated to within rounding of 1 the corrected n is zero to rounding and the expression is a division by
+        # (almost) zero: unbounded either way, not compared
+        if math.isfinite(t) and npr > 1e-9 * n and mm > 0:
             base = sp * (t * cv * math.sqrt(n / (mm * npr) * (1 + 2 / npr)))
             if c["freq"] == "hourly":
                 exp = 1.26 * base
